@@ -6,6 +6,7 @@ package controllers
 import (
 	"context"
 	"fmt"
+	"k8s.io/apimachinery/pkg/api/equality"
 
 	"k8s.io/apimachinery/pkg/runtime"
 	"k8s.io/apimachinery/pkg/types"
@@ -75,9 +76,13 @@ func (r *QueueReconciler) Reconcile(ctx context.Context, req ctrl.Request) (ctrl
 		return ctrl.Result{}, fmt.Errorf("failed to update child queues: %v", err)
 	}
 
-	err = r.Client.Status().Patch(ctx, queue, client.MergeFrom(originalQueue))
-	if err != nil {
-		return ctrl.Result{}, fmt.Errorf("failed to patch status for queue %s, error: %v", queue.Name, err)
+	// Patch only a real change: the sums may merely be formatted differently than the stored ones (1Gi vs
+	// 1073741824, depending on list order), and every status write re-enqueues this queue and its parent.
+	if !equality.Semantic.DeepEqual(originalQueue.Status, queue.Status) {
+		err = r.Client.Status().Patch(ctx, queue, client.MergeFrom(originalQueue))
+		if err != nil {
+			return ctrl.Result{}, fmt.Errorf("failed to patch status for queue %s, error: %v", queue.Name, err)
+		}
 	}
 
 	metrics.SetQueueMetrics(queue)
